@@ -12,6 +12,7 @@ P3 == <<"a", "b", "c">>
 ShapesQuick == {<<0, 3, "fixed">>, <<0, 5, "fixed">>, <<0, 0, "none">>, <<3, 5, "last">>, <<5, 0, "none">>}
 ShapesFull  == ShapesQuick \cup {<<0, 2, "fixed">>, <<0, 7, "fixed">>, <<2, 4, "fixed">>, <<0, 4, "last">>, <<6, 0, "none">>}
 ShapesSanity == {<<0, 5, "fixed">>, <<5, 0, "none">>, <<0, 7, "fixed">>}
+ShapesThree == {<<0, 3, "fixed">>, <<0, 5, "fixed">>, <<0, 0, "none">>}
 ShapesTwo   == {<<0, 5, "fixed">>, <<3, 0, "none">>}
 \* version menus
 MA4 == {{1,2,5}, {4,5,6}, {1,5,7}, {1,3}}
@@ -25,6 +26,7 @@ MenusA2B2 == <<MA2, MB2>>
 MenusFull2 == <<MFull, MFull>>
 MenusA3B1 == <<MA3, {{1,5,7}}>>
 MenusA2B3 == <<MA2, MA3>>
+MenusA1B3 == <<{{1,5,7}}, MA3>>
 MenusOpt == <<{{1,5,7}}, MB2>>
 MenusSanity == <<{{1,5,7}}, {{1,5,7}}>>
 MenusDiamondQ == <<{{1,5}}, {{1,5}}, MA2>>
